@@ -161,12 +161,14 @@ def recheck(pid, tier, seed, idxs):
     """fresh-process re-execution of selected cases; prints {idx: obs digest}"""
     chk = _load(pid)
     want = set(idxs)
-    out = {}
+    work = []
     for i, case in enumerate(chk.cases(tier, seed)):
         if i in want:
-            out[i] = _work((pid, i, case))["obs"] if True else None
-        if len(out) == len(want):
+            work.append((pid, i, case))
+        if len(work) == len(want):
             break
+    with mp.get_context("fork").Pool(min(16, max(1, len(work)))) as pool:
+        out = {o["idx"]: o.get("obs") for o in pool.imap_unordered(_work, work)}
     print("RECHECK " + json.dumps(out))
     return 0
 
@@ -210,7 +212,10 @@ def main(argv=None):
     harness_errors = []
     slow = []
     work = [(pid, i, c) for i, c in enumerate(cases)]
-    chunk = max(1, min(32, ncases // (args.jobs * 8) or 1))
+    # canonical order is simplest-first; the pool is fed heaviest-first (the check's cost estimate, else reverse order)
+    cost = getattr(chk, "cost", None)
+    work.sort(key=(lambda w: -cost(w[2])) if cost else (lambda w: -w[1]))
+    chunk = max(1, min(32, ncases // (args.jobs * 16) or 1))
     if args.jobs > 1 and ncases > 1:
         ctx = mp.get_context("fork")
         pool = ctx.Pool(args.jobs)
